@@ -232,6 +232,46 @@ def build(run):
         return bounded_ok(n, f"{len(cases)} integrands with symbolic exponents, each decided within {LIMIT} s in a child process", sample="a decision (accept / reject) is reached; possibly complex powers rejected")
     run.add("complex-mode/powers-with-symbolic-exponents-are-decided", symbolic_powers, kind="bounded", budget=600)
 
+    # compound conditions (And / Or / Not) and the equality tests eq / ne in complex mode: only the ORDERING comparisons inside are checked and wrapped; the logical
+    # connectives stay conditions, and eq / ne are defined for complex values (accepted, not wrapped)
+    def compound_conditions():
+        import ufv.elements as E
+        from ufl.algorithms import compute_form_data
+        S_ = ufl.FunctionSpace(tri, E.LagrangeElement(tri.ufl_cell(), 1))
+        f, v = ufl.Coefficient(S_), ufl.TestFunction(S_)
+        x = ufl.SpatialCoordinate(tri)
+        dxm = ufl.Measure("dx", domain=tri)
+        cases = [("And(lt(x0, 1/2), gt(x1, 1/10))", ufl.And(ufl.lt(x[0], 0.5), ufl.gt(x[1], 0.1)), True), ("Or(lt(|f|, 1), gt(x0, 0))", ufl.Or(ufl.lt(abs(f), 1), ufl.gt(x[0], 0)), True),
+                 ("Not(le(x0, x1))", ufl.Not(ufl.le(x[0], x[1])), True), ("And(Or(lt, ge), Not(gt))", ufl.And(ufl.Or(ufl.lt(x[0], 0), ufl.ge(x[1], 1)), ufl.Not(ufl.gt(abs(f), 2))), True),
+                 ("eq(f, 0)", ufl.eq(f, 0), True), ("ne(f, 1j)", ufl.ne(f, 1j), True), ("And(eq(f, 0), lt(x0, 1))", ufl.And(ufl.eq(f, 0), ufl.lt(x[0], 1)), True),
+                 ("And(lt(f, 0), gt(x0, 0))  [complex f ordered]", ufl.And(ufl.lt(f, 0), ufl.gt(x[0], 0)), False), ("Not(ge(f, x0))  [complex f ordered]", ufl.Not(ufl.ge(f, x[0])), False)]
+        n = 0
+        for nm, cond, accept in cases:
+            form = ufl.conditional(cond, 1.0, 2.0) * f * ufl.conj(v) * dxm
+            n += 1
+            try:
+                fd = compute_form_data(form, complex_mode=True)
+                outcome = "accepted"
+            except ComplexComparisonError:
+                outcome = "rejected"
+            except BaseException as ex:  # noqa: BLE001
+                if isinstance(ex, (KeyboardInterrupt, SystemExit)):
+                    raise
+                return violated(f"complex-mode preprocessing of conditional({nm}, 1, 2)*f*conj(v)*dx failed with {type(ex).__name__}: {ex}", replay={"condition": nm, "error": str(ex)[:300]},
+                                reproduced=True, backend="exec")
+            if (outcome == "accepted") != accept:
+                return violated(f"complex mode {outcome} conditional({nm}, ...): " + ("its ordering comparisons have provably real operands and equality is defined for complex values" if accept
+                                                                                       else "it orders a possibly complex quantity"), replay={"condition": nm, "outcome": outcome}, reproduced=True, backend="exec")
+            if accept:
+                # the logical structure is kept: same number of And / Or / Not / EQ / NE nodes, and no Real() wrapped around a condition
+                count = lambda e_, T_: sum(isinstance(nd, T_) for nd in ufl.corealg.traversal.unique_pre_traversal(e_))     # noqa: E731
+                itg = fd.preprocessed_form.integrals()[0].integrand()
+                for T_ in (C.AndCondition, C.OrCondition, C.NotCondition, C.EQ, C.NE):
+                    if count(itg, T_) != count(form.integrals()[0].integrand(), T_):
+                        return violated(f"complex mode changed the number of {T_.__name__} nodes in conditional({nm}, ...)", replay={"condition": nm}, reproduced=True, backend="structural")
+        return proved("exec(finite)", vcs=n, sample=f"{n} compound / equality conditions: accepted with their logical structure when every ordered operand is real, rejected otherwise")
+    run.add("complex-mode/compound-and-equality-conditions", compound_conditions, kind="values")
+
     # terminals: which are typed real
     def terminals():
         import ufv.elements as E
